@@ -76,6 +76,72 @@ func runC19(c *Ctx) {
 	// who may remove a waiter: the reply handler (its own id) and the ping that registered it (its own id). Any other
 	// removal - a sweep over the table, a different key - takes away a waiter whose reply may still arrive: that ping
 	// then reports a timeout although its reply is parsed in time.
+	// the time a ping waits is the effective timeout: every duration or deadline that decides when the wait ends is
+	// computed from the timeout after it was normalised (a zero, negative or over-long argument becomes the default), not
+	// from the raw argument. A deadline taken from the raw argument expires at once for timeout <= 0: the ping reports a
+	// timeout and removes its waiter before the reply, parsed well inside the effective window, arrives.
+	r.Rule("wait-effective", "the wait of a ping ends after the normalised timeout, not the raw argument", 2)
+	for _, pn := range []struct{ typ, name string }{{"Session", "ping"}, {"Session", "Ping6"}} {
+		fn := c.P.Method("", pn.typ, pn.name)
+		if fn == nil {
+			continue
+		}
+		var tparam *ssa.Parameter
+		for _, p := range fn.Params {
+			if p.Type().String() == "time.Duration" {
+				tparam = p
+			}
+		}
+		var normalised *ssa.Phi
+		core.EachInstr(fn, func(i ssa.Instruction) {
+			if ph, ok := i.(*ssa.Phi); ok && tparam != nil {
+				hasP, hasC := false, false
+				for _, e := range ph.Edges {
+					if e == ssa.Value(tparam) {
+						hasP = true
+					}
+					if _, isC := e.(*ssa.Const); isC {
+						hasC = true
+					}
+				}
+				if hasP && hasC {
+					normalised = ph
+				}
+			}
+		})
+		st, det := core.Undecided, "the timeout parameter or its normalisation (a φ of the argument and the default) was not found"
+		if tparam != nil {
+			st, det = core.Proved, ""
+			if normalised == nil {
+				st, det = core.Violated, "the timeout argument is not normalised before it decides the wait (no default for a zero, negative or over-long value is merged into it)"
+			}
+			// wait-ending values: channels received from in a select, and arguments of time.After / NewTimer / Until / Add
+			core.EachInstr(fn, func(i ssa.Instruction) {
+				var vals []ssa.Value
+				switch t := i.(type) {
+				case *ssa.Select:
+					for _, stt := range t.States {
+						vals = append(vals, stt.Chan)
+					}
+				default:
+					return
+				}
+				for _, v := range vals {
+					var stop ssa.Value
+					if normalised != nil {
+						stop = normalised
+					}
+					sl := dataSliceStop(fn, v, stop)
+					if sl[tparam] {
+						st = core.Violated
+						det = "the wait at " + c.P.Pos(core.PosOf(i)) + " ends at a time computed from the raw timeout argument (" + norm(v) + "), bypassing its normalisation: with timeout <= 0 it ends at once and a reply parsed inside the effective window finds no waiter"
+					}
+				}
+			})
+		}
+		r.Add(core.Obligation{Rule: "wait-effective", Key: "wait-effective " + core.FuncName(fn), Func: core.FuncName(fn), Pos: c.P.Pos(fn.Pos()), Status: st,
+			Basis: "the select's timer depends on the timeout argument only through its normalisation", Detail: det})
+	}
 	r.Rule("who-removes", "a waiter entry is removed only by echoNotify(id) and by the ping that registered that id", 3)
 	for _, fn := range fns {
 		core.EachInstr(fn, func(i ssa.Instruction) {
